@@ -85,6 +85,13 @@ def pm01 (b : M3 K) : K := b.a00 * b.a11 - b.a01 * b.a10
 def pm02 (b : M3 K) : K := b.a00 * b.a22 - b.a02 * b.a20
 def pm12 (b : M3 K) : K := b.a11 * b.a22 - b.a12 * b.a21
 
+/-- symmetric part of a matrix, shifted by `(ε/2)·I`: `tr(A')·I − A' = tr(A)·I − sym(A) + ε·I` -/
+def symShift (A : M3 K) (ε : K) : M3 K :=
+  let h : K := 1 / (1 + 1)
+  ⟨A.a00 + h * ε, h * (A.a01 + A.a10), h * (A.a02 + A.a20),
+   h * (A.a01 + A.a10), A.a11 + h * ε, h * (A.a12 + A.a21),
+   h * (A.a02 + A.a20), h * (A.a12 + A.a21), A.a22 + h * ε⟩
+
 end
 
 /-! ### refusal (exact counterparts of the two `raise GeometryException` sites) -/
@@ -160,5 +167,74 @@ def certScale (ε : Rat) (withScale : Bool) (x y : List (V3 Rat)) (R : M3 Rat) (
 def umeCert (ε : Rat) (withScale : Bool) (x y : List (V3 Rat)) (R : M3 Rat) (t : V3 Rat) (c : Rat) : Bool :=
   certOrtho ε R && certDet ε R && certT ε x y R t c && certSym ε x y R && certPsd ε x y R
     && certScale ε withScale x y R c
+
+/-- uniqueness condition (decidable): `B = tr(A)·I − A` positive definite, by Sylvester's leading
+minors. In terms of the singular values `d₁ ≥ d₂ ≥ d₃` of the covariance: `d₂ > 0` and not
+(reflection case with `d₂ = d₃`). Under it the certified minimiser is the only one
+(`Props/C03.umeyama_unique`). -/
+def certPD (x y : List (V3 Rat)) (R : M3 Rat) : Bool :=
+  let B := bmat (amat x y R)
+  decide (0 < B.a00) && decide (0 < pm01 B) && decide (0 < M3.det B)
+
+/-! ### quantified gap: ε-relaxed certificate with explicit slacks (see `Lemmas/UmeyamaApprox.lean`)
+
+evo's float `R₁` is not exactly orthonormal. `approxReport` ties it to the exact rational rotation
+`R = quatRot q` of a quaternion hint `q` (any non-zero rational quaternion gives an exact rotation,
+no square root), measures the slacks of `(R, t, c)` exactly, and adds the exactly computed residual
+gap `(resid(R₁,t,c) − resid(R,t,c))/n`. `Props/C03.umeyama_optimal_approx_checked`: whenever a report
+is returned, `resid(R₁,t,c) ≤ resid(R',t',c') + n·b` for every proper rotation `R'`, `t'`, `c' ≥ 0`. -/
+
+/-- rotation matrix of the quaternion `(w, x, y, z) ≠ 0`, normalised by `|q|²` (no square root) -/
+def quatRot (w x y z : Rat) : M3 Rat :=
+  let n := w * w + x * x + y * y + z * z
+  ⟨(w * w + x * x - y * y - z * z) / n, 2 * (x * y - w * z) / n, 2 * (x * z + w * y) / n,
+   2 * (x * y + w * z) / n, (w * w - x * x + y * y - z * z) / n, 2 * (y * z - w * x) / n,
+   2 * (x * z - w * y) / n, 2 * (y * z + w * x) / n, (w * w - x * x - y * y + z * z) / n⟩
+
+def asymMax (A : M3 Rat) : Rat :=
+  max (absR (A.a01 - A.a10)) (max (absR (A.a02 - A.a20)) (absR (A.a12 - A.a21)))
+
+/-- all seven principal minors non-negative -/
+def minorsNonneg (B : M3 Rat) : Bool :=
+  decide (0 ≤ B.a00) && decide (0 ≤ B.a11) && decide (0 ≤ B.a22) && decide (0 ≤ pm01 B) && decide (0 ≤ pm02 B)
+    && decide (0 ≤ pm12 B) && decide (0 ≤ M3.det B)
+
+/-- candidate slacks for the semidefiniteness: `0`, then `m·2⁻⁶⁰ … m·2⁻²⁰` -/
+def psdLadder (m : Rat) : List Rat :=
+  0 :: [60, 56, 52, 48, 44, 40, 36, 32, 28, 24, 20].map (fun k : Nat => m / ((2 ^ k : Nat) : Rat))
+
+/-- the first ladder value `ε₃ ≥ 0` for which `tr(A)I − sym(A) + ε₃·I` has non-negative principal minors -/
+def psdSlack (A : M3 Rat) (m : Rat) : Option Rat :=
+  (psdLadder m).find? (fun e => decide (0 ≤ e) && minorsNonneg (bmat (symShift A e)))
+
+structure ApproxReport where
+  eta : Rat    -- ‖R₁ − R‖_max, distance of evo's R₁ to the exact rotation used
+  e2 : Rat     -- asymmetry of A = Rᵀ·cov
+  e3 : Rat     -- semidefiniteness slack
+  e4 : Rat     -- ‖t − (μ_y − cRμ_x)‖²
+  e5 : Rat     -- |c·σ_x² − tr A|  (0 without scale estimation)
+  gap : Rat    -- (resid(R₁,t,c) − resid(R,t,c)) / n
+  b : Rat      -- the bound: resid(R₁,t,c) ≤ resid(R',t',c') + n·b
+deriving Repr
+
+def approxReport (ws : Bool) (x y : List (V3 Rat)) (R₁ : M3 Rat) (t : V3 Rat) (c : Rat) (qw qx qy qz : Rat) :
+    Option ApproxReport :=
+  if qw * qw + qx * qx + qy * qy + qz * qz = 0 ∨ x.length ≠ y.length ∨ x = [] then none else
+  let R := quatRot qw qx qy qz
+  let A := amat x y R
+  let e2 := asymMax A
+  match psdSlack A (linfM (cov x y)) with
+  | none => none
+  | some e3 =>
+    let e4 := V3.normSq (V3.sub t (tFormula x y R c))
+    let τ := 3 * e2 + 3 * e3
+    let gap := (resid x y R₁ t c - resid x y R t c) / cnt x
+    let eta := linfM (M3.sub R₁ R)
+    if ws then
+      if 0 ≤ c ∧ 0 < var x then
+        let e5 := absR (c * var x - M3.trace A)
+        some ⟨eta, e2, e3, e4, e5, gap, e4 + 2 * c * τ + (e5 + τ) * (e5 + τ) / var x + gap⟩
+      else none
+    else if c = 1 then some ⟨eta, e2, e3, e4, 0, gap, e4 + 2 * τ + gap⟩ else none
 
 end Evo.Ume
